@@ -1,6 +1,6 @@
 (* c13_driver.ml — evaluates the extracted C13 model (ECDSA sign / parse / verify, DER) on request lines.
    Integers are decimal, bytes lower-case hex ("-" = empty).  Answers of verify / parse carry the model's
-   finding-class flags after a '|' (short_der, lax_der, unreduced key coordinates); the harness compares the
+   finding-class flags after a '|' (der64, lax_der, unreduced key coordinates); the harness compares the
    part before it with the implementation. *)
 module BZ = Z
 open C13_model
@@ -9,7 +9,7 @@ open H
 
 let kopt t = if t = "-" then None else Some (z_of t)
 let flags sg q =
-  Printf.sprintf "|short=%s lax=%s unred=%s" (bool_s (short_der sg)) (bool_s (lax_der sg))
+  Printf.sprintf "|der64=%s lax=%s unred=%s" (bool_s (der64 sg)) (bool_s (lax_der sg))
     (match q with Some q -> bool_s (not (coords_reduced q)) | None -> "0")
 let vres = function Some true -> "1" | Some false -> "0" | None -> "ERR"
 let in_range v = BZ.geq v BZ.one && BZ.lt v secp_n
@@ -41,6 +41,10 @@ let dispatch = function
            let re = if List.length sg = 64 then der_enc r s @ [zb ht] else sg in
            str_z r ^ " " ^ str_z s ^ " " ^ str_z ht ^ " " ^ hex_of_bytes re
        | _ -> "ERR") ^ flags sg None
+  | ["parsepre"; sg] ->
+      (match lib_parse_prefix (bytes_of_hex sg) with
+       | Some ((r, s), ht) when in_range r && in_range s -> str_z r ^ " " ^ str_z s ^ " " ^ str_z ht
+       | _ -> "ERR")
   | ["specparse"; sg] ->
       (match spec_parse (bytes_of_hex sg) with
        | Some ((r, s), ht) -> str_z r ^ " " ^ str_z s ^ " " ^ str_z ht
